@@ -63,6 +63,7 @@ type Contract struct {
 	Callsites []*CallsiteReq
 	Implicit  bool
 	CallsitesOnly bool
+	Callbacks []string // extern higher-order function: parameters it invokes (zero or more times, with arbitrary arguments)
 	Construction bool // called only before the receiver is shared: guarded-field accesses are exempt
 }
 
@@ -309,6 +310,11 @@ func (ss *SpecSet) LoadContractFile(path string, pkgPath string) error {
 			cur.Inline = true
 		case "construction":
 			cur.Construction = true
+		case "callback":
+			// the (extern) function calls this function-typed parameter any number of times with arguments of its choosing
+			for _, n := range strings.Split(rest, ",") {
+				cur.Callbacks = append(cur.Callbacks, strings.TrimSpace(n))
+			}
 		case "callsites-only":
 			// only the call-site clauses of this contract are proved for the body (its other obligations - callee
 			// preconditions, safety - are out of scope for this contract and are not generated as claims)
